@@ -350,7 +350,8 @@ func atomicOpWidth(f binaryExprFunc, i instruction, addrW, opW expr.Width) []exp
 
 func csrKey(i instruction) expr.Key {
 	csrNum, _ := immTypeI.parseValue(i.value)
-	return expr.Key(csr(csrNum).String())
+	// The immediate is sign extended, but CSR number is unsigned 12 bit value.
+	return expr.Key(csr(csrNum & 0xfff).String())
 }
 
 func csrImm(i instruction) expr.Const {
